@@ -103,13 +103,22 @@ func (s *Modifier) ModifyResponse(res *http.Response) error {
 		return err
 	}
 
-	res.Body.Close()
-
 	info, err := f.Stat()
 	if err != nil {
+		f.Close()
 		res.StatusCode = http.StatusInternalServerError
 		return err
 	}
+
+	// Only regular files are served. A directory (or any other non-regular
+	// file) can be opened but not read, so it is answered like a missing file.
+	if !info.Mode().IsRegular() {
+		f.Close()
+		res.StatusCode = http.StatusNotFound
+		return nil
+	}
+
+	res.Body.Close()
 
 	contentType := mime.TypeByExtension(filepath.Ext(fpth))
 	res.Header.Set("Content-Type", contentType)
